@@ -54,7 +54,7 @@ def one(sid):
 if __name__ == "__main__":
     ids = sys.argv[1:] or sorted(os.path.basename(p) for p in glob.glob(V + "/seeded/C*-*"))
     os.makedirs("/tmp/tri", exist_ok=True)
-    with cf.ThreadPoolExecutor(6) as ex:
+    with cf.ThreadPoolExecutor(int(os.environ.get("TRI_WORKERS", "6"))) as ex:
         for sid, msg in ex.map(one, ids):
             print(sid, msg, flush=True)
     shutil.rmtree("/tmp/tri", ignore_errors=True)
